@@ -1,0 +1,393 @@
+//go:build verif
+
+package replication
+
+import (
+	"bytes"
+
+	"github.com/Breeze0806/gobinlog/internal/vspec"
+)
+
+// ---- spec helpers (pure, loop-free) ----
+
+func specLE(data []byte, pos int, n int) uint64 {
+	var v uint64
+	if n > 0 {
+		v |= uint64(data[pos])
+	}
+	if n > 1 {
+		v |= uint64(data[pos+1]) << 8
+	}
+	if n > 2 {
+		v |= uint64(data[pos+2]) << 16
+	}
+	if n > 3 {
+		v |= uint64(data[pos+3]) << 24
+	}
+	if n > 4 {
+		v |= uint64(data[pos+4])<<32 | uint64(data[pos+5])<<40 | uint64(data[pos+6])<<48 | uint64(data[pos+7])<<56
+	}
+	return v
+}
+
+func specBE(data []byte, pos int, n int) uint64 {
+	var v uint64
+	if n > 0 {
+		v = uint64(data[pos])
+	}
+	if n > 1 {
+		v = v<<8 | uint64(data[pos+1])
+	}
+	if n > 2 {
+		v = v<<8 | uint64(data[pos+2])
+	}
+	if n > 3 {
+		v = v<<8 | uint64(data[pos+3])
+	}
+	if n > 4 {
+		v = v<<8 | uint64(data[pos+4])
+	}
+	return v
+}
+
+// sign-extend the low n bytes of v
+func specSext(v uint64, n int) int64 {
+	sh := uint(64 - 8*n)
+	return int64(v<<sh) >> sh
+}
+
+func specIsIntType(typ byte) bool {
+	return typ == TypeTiny || typ == TypeShort || typ == TypeInt24 || typ == TypeLong || typ == TypeLongLong
+}
+
+func specIntWidth(typ byte) int {
+	switch typ {
+	case TypeTiny:
+		return 1
+	case TypeShort:
+		return 2
+	case TypeInt24:
+		return 3
+	case TypeLong:
+		return 4
+	}
+	return 8
+}
+
+// which types this probe's contract covers
+func specCovered(typ byte, metadata uint16) bool {
+	switch typ {
+	case TypeTiny, TypeShort, TypeInt24, TypeLong, TypeLongLong, TypeYear, TypeDate, TypeNewDate, TypeTime, TypeDateTime,
+		TypeTimestamp:
+		return true
+	case TypeTime2, TypeDateTime2, TypeTimestamp2:
+		return metadata <= 6
+	case TypeVarchar, TypeVarString:
+		return true
+	case TypeNewDecimal:
+		p, sc := int(metadata>>8), int(metadata&0xff)
+		return p >= 1 && p <= 65 && sc == 0
+	}
+	return false
+}
+
+func specFracBytes(fsp uint16) int { return (int(fsp) + 1) / 2 }
+
+func specCellLen(data []byte, pos int, typ byte, metadata uint16) int {
+	switch typ {
+	case TypeTiny, TypeYear:
+		return 1
+	case TypeShort:
+		return 2
+	case TypeInt24, TypeDate, TypeNewDate, TypeTime:
+		return 3
+	case TypeLong, TypeTimestamp:
+		return 4
+	case TypeLongLong, TypeDateTime:
+		return 8
+	case TypeTime2:
+		return 3 + specFracBytes(metadata)
+	case TypeDateTime2:
+		return 5 + specFracBytes(metadata)
+	case TypeTimestamp2:
+		return 4 + specFracBytes(metadata)
+	case TypeVarchar, TypeVarString:
+		if metadata > 255 {
+			return 2 + int(specLE(data, pos, 2))
+		}
+		return 1 + int(data[pos])
+	case TypeNewDecimal:
+		p, sc := int(metadata>>8), int(metadata&0xff)
+		intg := p - sc
+		return (intg/9)*4 + specDig2bytes[intg%9] + (sc/9)*4 + specDig2bytes[sc%9]
+	}
+	return 0
+}
+
+// maximal number of bytes the cell can occupy (so that the requires is loop-free and does not read data)
+func specCellMax(typ byte, metadata uint16) int {
+	switch typ {
+	case TypeVarchar, TypeVarString:
+		return 2
+	case TypeNewDecimal:
+		return 1
+	}
+	return 8
+}
+
+func specDate(v uint64) vspec.Text {
+	return vspec.Cat(vspec.Num(4, v>>9), vspec.Lit("-"), vspec.Num(2, (v>>5)&15), vspec.Lit("-"), vspec.Num(2, v&31))
+}
+
+func specHMS(h, m, s uint64) vspec.Text {
+	return vspec.Cat(vspec.Num(2, h), vspec.Lit(":"), vspec.Num(2, m), vspec.Lit(":"), vspec.Num(2, s))
+}
+
+// fraction text for fsp digits from the (fsp+1)/2 big-endian bytes value fr (odd fsp are stored x10)
+func specFrac(fsp uint16, fr uint64) vspec.Text {
+	switch fsp {
+	case 1:
+		return vspec.Cat(vspec.Lit("."), vspec.Num(1, fr/10))
+	case 2:
+		return vspec.Cat(vspec.Lit("."), vspec.Num(2, fr))
+	case 3:
+		return vspec.Cat(vspec.Lit("."), vspec.Num(3, fr/10))
+	case 4:
+		return vspec.Cat(vspec.Lit("."), vspec.Num(4, fr))
+	case 5:
+		return vspec.Cat(vspec.Lit("."), vspec.Num(5, fr/10))
+	case 6:
+		return vspec.Cat(vspec.Lit("."), vspec.Num(6, fr))
+	}
+	return vspec.Empty()
+}
+
+func specTimestampText(sec uint64) vspec.Text {
+	if sec == 0 {
+		return vspec.Lit("0000-00-00 00:00:00")
+	}
+	y, mo, d, h, mi, s := vspec.LocalYMDHMS(int64(sec))
+	return vspec.Cat(vspec.Num(4, uint64(y)), vspec.Lit("-"), vspec.Num(2, uint64(mo)), vspec.Lit("-"), vspec.Num(2, uint64(d)),
+		vspec.Lit(" "), specHMS(uint64(h), uint64(mi), uint64(s)))
+}
+
+// TIME2: documented layout. The 3+fb bytes form one big-endian integer biased by 0x800000<<(8*fb);
+// the value is sign-magnitude of that biased integer.
+func specTime2(data []byte, pos int, fsp uint16) vspec.Text {
+	fb := specFracBytes(fsp)
+	comb := int64(specBE(data, pos, 3))
+	bias := int64(0x800000)
+	if fb == 1 {
+		comb = comb<<8 | int64(data[pos+3])
+		bias <<= 8
+	} else if fb == 2 {
+		comb = comb<<16 | int64(specBE(data, pos+3, 2))
+		bias <<= 16
+	} else if fb == 3 {
+		comb = comb<<24 | int64(specBE(data, pos+3, 3))
+		bias <<= 24
+	}
+	v := comb - bias
+	sign := vspec.Empty()
+	if v < 0 {
+		v = -v
+		sign = vspec.Lit("-")
+	}
+	var hms, fr uint64
+	switch fb {
+	case 0:
+		hms, fr = uint64(v), 0
+	case 1:
+		hms, fr = uint64(v)>>8, uint64(v)&0xff
+	case 2:
+		hms, fr = uint64(v)>>16, uint64(v)&0xffff
+	default:
+		hms, fr = uint64(v)>>24, uint64(v)&0xffffff
+	}
+	return vspec.Cat(sign, specHMS((hms>>12)&0x3ff, (hms>>6)&0x3f, hms&0x3f), specFrac(fsp, fr))
+}
+
+func specCellText(data []byte, pos int, typ byte, metadata uint16, uns bool) vspec.Text {
+	switch typ {
+	case TypeTiny, TypeShort, TypeInt24, TypeLong, TypeLongLong:
+		n := specIntWidth(typ)
+		v := specLE(data, pos, n)
+		if uns {
+			return vspec.Num(1, v)
+		}
+		return vspec.DecS(specSext(v, n))
+	case TypeYear:
+		if data[pos] == 0 {
+			return vspec.Lit("0000")
+		}
+		return vspec.Num(4, 1900+uint64(data[pos]))
+	case TypeDate, TypeNewDate:
+		return specDate(specLE(data, pos, 3))
+	case TypeTime:
+		// signed 24-bit decimal hhmmss; 32-bit arithmetic is enough and keeps the solver fast
+		v := int32(specSext(specLE(data, pos, 3), 3))
+		sign := vspec.Empty()
+		if v < 0 {
+			v = -v
+			sign = vspec.Lit("-")
+		}
+		return vspec.Cat(sign, specHMS(uint64(v/10000), uint64((v/100)%100), uint64(v%100)))
+	case TypeDateTime:
+		v := specLE(data, pos, 8)
+		d, t := v/1000000, v%1000000
+		return vspec.Cat(vspec.Num(4, d/10000), vspec.Lit("-"), vspec.Num(2, (d/100)%100), vspec.Lit("-"), vspec.Num(2, d%100),
+			vspec.Lit(" "), specHMS(t/10000, (t/100)%100, t%100))
+	case TypeTimestamp:
+		return specTimestampText(specLE(data, pos, 4))
+	case TypeTimestamp2:
+		return vspec.Cat(specTimestampText(specBE(data, pos, 4)), specFrac(metadata, specBE(data, pos+4, specFracBytes(metadata))))
+	case TypeDateTime2:
+		v := specBE(data, pos, 5) - 0x8000000000
+		ym := v >> 22
+		return vspec.Cat(vspec.Num(4, ym/13), vspec.Lit("-"), vspec.Num(2, ym%13), vspec.Lit("-"), vspec.Num(2, (v>>17)&31),
+			vspec.Lit(" "), specHMS((v>>12)&31, (v>>6)&63, v&63), specFrac(metadata, specBE(data, pos+5, specFracBytes(metadata))))
+	case TypeTime2:
+		return specTime2(data, pos, metadata)
+	case TypeVarchar, TypeVarString:
+		if metadata > 255 {
+			l := int(specLE(data, pos, 2))
+			return vspec.Raw(data[pos+2 : pos+2+l])
+		}
+		l := int(data[pos])
+		return vspec.Raw(data[pos+1 : pos+1+l])
+	case TypeNewDecimal:
+		return specDecimalText(data, pos, metadata)
+	}
+	return vspec.Empty()
+}
+
+// ---- contract: CellBytes ----
+
+func vc_CellBytes_requires(data []byte, pos int, typ byte, metadata uint16, isUnSignedInt bool) bool {
+	return specCovered(typ, metadata) && pos >= 0 && pos <= len(data) && len(data)-pos >= specCellMax(typ, metadata) &&
+		len(data)-pos >= specCellLen(data, pos, typ, metadata)
+}
+
+func vc_CellBytes_ensures_len(data []byte, pos int, typ byte, metadata uint16, isUnSignedInt bool, out []byte, n int, err error) bool {
+	return err == nil && n == specCellLen(data, pos, typ, metadata)
+}
+
+func vc_CellBytes_ensures_value(data []byte, pos int, typ byte, metadata uint16, isUnSignedInt bool, out []byte, n int, err error) bool {
+	return vspec.SameText(out, specCellText(data, pos, typ, metadata, isUnSignedInt))
+}
+
+func vc_CellBytes_ensures_owner(data []byte, pos int, typ byte, metadata uint16, isUnSignedInt bool, out []byte, n int, err error) bool {
+	return out != nil && vspec.FreshOrWithin(out, data)
+}
+
+
+// ---- DECIMAL (decimal2bin layout) ----
+
+// bytes needed for 0..9 leftover digits
+var specDig2bytes = []int{0, 1, 1, 2, 2, 3, 3, 4, 4, 4}
+
+// k-th byte of the value after undoing the sign-bit flip and, for negatives, the byte inversion
+func specDecByte(data []byte, p0 int, neg bool, k int) byte {
+	b := data[p0+k]
+	if k == 0 {
+		b ^= 0x80
+	}
+	if neg {
+		b ^= 0xff
+	}
+	return b
+}
+
+// big-endian value of n (0..4) normalised bytes starting at byte index at
+func specDecBE(data []byte, p0 int, neg bool, at int, n int) uint64 {
+	var v uint64
+	if n > 0 {
+		v = uint64(specDecByte(data, p0, neg, at))
+	}
+	if n > 1 {
+		v = v<<8 | uint64(specDecByte(data, p0, neg, at+1))
+	}
+	if n > 2 {
+		v = v<<8 | uint64(specDecByte(data, p0, neg, at+2))
+	}
+	if n > 3 {
+		v = v<<8 | uint64(specDecByte(data, p0, neg, at+3))
+	}
+	return v
+}
+
+// is any digit of the leading partial group or of the first k full groups non-zero?
+func specDecNonZero(data []byte, p0 int, neg bool, lb int, k int) bool {
+	if k <= 0 {
+		return specDecBE(data, p0, neg, 0, lb) != 0
+	}
+	return specDecNonZero(data, p0, neg, lb, k-1) || specDecBE(data, p0, neg, lb+4*(k-1), 4) != 0
+}
+
+// integer digits of the leading group and the first k full groups, leading zeros stripped (empty if all zero)
+func specDecIntText(data []byte, p0 int, neg bool, lb int, k int) vspec.Text {
+	if !specDecNonZero(data, p0, neg, lb, k) {
+		return vspec.Empty()
+	}
+	if k <= 0 {
+		return vspec.Num(1, specDecBE(data, p0, neg, 0, lb))
+	}
+	g := specDecBE(data, p0, neg, lb+4*(k-1), 4)
+	if specDecNonZero(data, p0, neg, lb, k-1) {
+		return specDecIntText(data, p0, neg, lb, k-1).Cat(vspec.Num(9, g))
+	}
+	return vspec.Num(1, g)
+}
+
+func specSign(neg bool) vspec.Text {
+	if neg {
+		return vspec.Lit("-")
+	}
+	return vspec.Empty()
+}
+
+func specDecimalText(data []byte, pos int, metadata uint16) vspec.Text {
+	p, sc := int(metadata>>8), int(metadata&0xff)
+	intg := p - sc
+	intg0 := intg / 9
+	lb := specDig2bytes[intg%9]
+	neg := data[pos]&0x80 == 0
+	ip := specDecIntText(data, pos, neg, lb, intg0)
+	if !specDecNonZero(data, pos, neg, lb, intg0) {
+		ip = vspec.Lit("0")
+	}
+	// scale == 0 only in this probe
+	return vspec.Cat(specSign(neg), ip)
+}
+
+// loop 1: `for i := range d { d[i] ^= 0xff }`
+func vc_CellBytes_loop1_inv(rangeindex int, d []byte, pre_d []byte) bool {
+	return rangeindex >= -1 && rangeindex <= len(d)-1 &&
+		vspec.Forall(0, rangeindex+1, func(k int) bool { return d[k] == pre_d[k]^0xff }) &&
+		vspec.Forall(rangeindex+1, len(d), func(k int) bool { return d[k] == pre_d[k] })
+}
+
+// loop 2: the full 9-digit integer groups
+func vc_CellBytes_loop2_inv(i int, intg0 int, intg0x int, pos int, flag bool, txt *bytes.Buffer, isNegative bool, data []byte, old_pos int) bool {
+	lb := specDig2bytes[intg0x]
+	return i >= 0 && i <= intg0 && pos == lb+4*i &&
+		flag == specDecNonZero(data, old_pos, isNegative, lb, i) &&
+		vspec.BufIs(txt, vspec.Cat(specSign(isNegative), specDecIntText(data, old_pos, isNegative, lb, i)))
+}
+
+// ---- exported views of the cell spec for contracts of the parent package ----
+
+// SpecCellLen is the length rule of one cell (see specCellLen).
+func SpecCellLen(data []byte, pos int, typ byte, metadata uint16) int {
+	return specCellLen(data, pos, typ, metadata)
+}
+
+// SpecCellText is the value text of one cell (see specCellText).
+func SpecCellText(data []byte, pos int, typ byte, metadata uint16, uns bool) vspec.Text {
+	return specCellText(data, pos, typ, metadata, uns)
+}
+
+// SpecCellOK is CellBytes' precondition.
+func SpecCellOK(data []byte, pos int, typ byte, metadata uint16) bool {
+	return vc_CellBytes_requires(data, pos, typ, metadata, false)
+}
